@@ -6,3 +6,7 @@ func c01R7(l *core.Ledger) {}
 
 func c11K8(l *core.Ledger) {}
 func c05M5gen(l *core.Ledger) {}
+func c03F6(l *core.Ledger)  {}
+func c04H3(l *core.Ledger)  {}
+func c06P4(l *core.Ledger)  {}
+func c06P6(l *core.Ledger)  {}
